@@ -3,10 +3,13 @@
     fragment run through FLisp/FPy/FGen.  Observables are mapped into FLisp.result. *)
 From Coq Require Import List ZArith NArith Bool.
 Import ListNotations.
-From Verif Require C01.Lisp C01.Py C01.Gen.
+From Verif Require C01.Lisp C01.Py C01.Gen C01L.LLisp C01L.LPy C01L.LGen.
 From Verif Require Export C01.FCorr.
 
-Inductive case := CS (e : Verif.C01.Lisp.expr) | CF (e : FLisp.expr).
+Inductive case :=
+| CS (e : Verif.C01.Lisp.expr)          (* first-order core: model of C01/Gen.v (simulation theorem) *)
+| CL (e : Verif.C01L.LLisp.lexpr)        (* core + loop*/recur: model of C01L/LGen.v (simulation theorem) *)
+| CF (e : FLisp.expr).                  (* full fragment: executable model only *)
 Definition out := result.
 
 Fixpoint obs_s (v : Verif.C01.Lisp.value) : obs :=
@@ -23,17 +26,24 @@ Definition res_s (r : option (Verif.C01.Lisp.value * Verif.C01.Lisp.trace)) : re
 Definition spec (c : case) : out :=
   match c with
   | CS e => res_s (Verif.C01.Lisp.eval (fun _ => None) e)
+  | CL e =>
+      match Verif.C01L.LLisp.leval 300 (fun _ => None) e with
+      | Some (Verif.C01L.LLisp.OVal v, t) => RVal (obs_s v) (map obs_s t)
+      | _ => RStuck
+      end
   | CF e => FCorr.spec e
   end.
 
 Definition model (c : case) : out :=
   match c with
   | CS e => res_s (Verif.C01.Gen.run e)
+  | CL e => res_s (Verif.C01L.LGen.lrun 300 e)
   | CF e => FCorr.model e
   end.
 
 Definition tag (c : case) : N :=
   match c with
   | CS e => if Verif.C01.Gen.hazard_free e then 0%N else 1%N
+  | CL e => if Verif.C01L.LGen.hazard_free e then 0%N else 1%N
   | CF e => FCorr.tag e
   end.
